@@ -1,1 +1,119 @@
-// placeholder
+//! C08 (soundness) — whatever the prover supplies, a path proof that verifies against the root of
+//! a key-value set only confirms statements that are true of that set; update verification
+//! through it returns the true new root or an error.
+//!
+//! The set is a shape (concrete topology, symbolic keys/values); the proof object is arbitrary
+//! inside its own shape (terminal kind, terminator depth, sibling count concrete; every byte
+//! symbolic). Hash = SymHash (collision-free symbolic oracle) under the real BinaryHasher.
+
+use crate::shape::*;
+use crate::symhash::*;
+use bitvec::prelude::*;
+use nomt_core::proof::{verify_update, PathProof, PathProofTerminal, PathUpdate};
+use nomt_core::trie::{KeyPath, LeafData, Node, ValueHash};
+
+fn adversarial_terminal(leaf: bool, td: usize, window: usize) -> PathProofTerminal {
+    if leaf {
+        PathProofTerminal::Leaf(LeafData {
+            key_path: kani::any(),
+            value_hash: kani::any(),
+        })
+    } else {
+        let k = window_key(window);
+        let bits = [
+            get_bit(&k, 0),
+            get_bit(&k, 1),
+            get_bit(&k, 2),
+            get_bit(&k, 3),
+            get_bit(&k, 4),
+            get_bit(&k, 5),
+            get_bit(&k, 6),
+            get_bit(&k, 7),
+        ];
+        PathProofTerminal::Terminator(position(&bits, td))
+    }
+}
+
+fn any_siblings(n: usize) -> Vec<Node> {
+    let mut v = Vec::with_capacity(n);
+    let mut i = 0;
+    while i < n {
+        v.push(kani::any());
+        i += 1;
+    }
+    v
+}
+
+pub fn path_sound<U: Tree>(window: usize, leaf: bool, td: usize, nsib: usize) {
+    let p = pairs::<U>(window);
+    let root = U::root::<SymHasher>(&p.keys, &p.vals, &ALL);
+    let proof = PathProof {
+        terminal: adversarial_terminal(leaf, td, window),
+        siblings: any_siblings(nsib),
+    };
+    // the key the verifier looks up, and the key it then asks about
+    let lookup = window_key(window);
+    let q = window_key(window);
+    let res = proof.verify::<SymHasher>(lookup.view_bits::<Msb0>(), root);
+    kani::cover!(true, "verify returned");
+    kani::cover!(res.is_ok(), "some proof verifies");
+    if let Ok(v) = res {
+        let claimed: ValueHash = kani::any();
+        let truth = model_get(&p, &ALL, &q);
+        let a = v.confirm_value(&LeafData {
+            key_path: q,
+            value_hash: claimed,
+        });
+        if let Ok(true) = a {
+            assert!(truth == Some(claimed), "confirm_value accepted a false value statement");
+        }
+        if let Ok(false) = a {
+            assert!(truth != Some(claimed), "confirm_value denied a true value statement");
+        }
+        let b = v.confirm_nonexistence(&q);
+        if let Ok(true) = b {
+            assert!(truth.is_none(), "confirm_nonexistence accepted a false statement");
+        }
+        if let Ok(false) = b {
+            assert!(truth.is_some(), "confirm_nonexistence denied a true statement");
+        }
+        kani::cover!(a.is_ok(), "some in-scope query");
+        core::mem::forget(v);
+    }
+    core::mem::forget(proof);
+}
+
+macro_rules! ps {
+    ($name:ident, $t:ty, $w:expr, $leaf:expr, $td:expr, $nsib:expr) => {
+        #[kani::proof]
+        pub fn $name() {
+            path_sound::<$t>($w, $leaf, $td, $nsib)
+        }
+    };
+}
+
+// empty set
+ps!(c08_ps_e_term0_s0, S0, 4, false, 0, 0);
+ps!(c08_ps_e_leaf_s0, S0, 4, true, 0, 0);
+ps!(c08_ps_e_term1_s1, S0, 4, false, 1, 1);
+// one pair
+ps!(c08_ps_s1_leaf_s0, S1, 4, true, 0, 0);
+ps!(c08_ps_s1_term0_s0, S1, 4, false, 0, 0);
+ps!(c08_ps_s1_leaf_s1, S1, 4, true, 0, 1);
+// two pairs diverging at bit 0
+ps!(c08_ps_s2d0_leaf_s1, S2D0, 4, true, 0, 1);
+ps!(c08_ps_s2d0_term1_s1, S2D0, 4, false, 1, 1);
+ps!(c08_ps_s2d0_leaf_s0, S2D0, 4, true, 0, 0);
+ps!(c08_ps_s2d0_leaf_s2, S2D0, 4, true, 0, 2);
+// two pairs sharing bit 0, diverging at bit 1
+ps!(c08_ps_s2d1_leaf_s2, S2D1L, 4, true, 0, 2);
+ps!(c08_ps_s2d1_term1_s1, S2D1L, 4, false, 1, 1);
+ps!(c08_ps_s2d1_term2_s2, S2D1L, 4, false, 2, 2);
+ps!(c08_ps_s2d1_leaf_s1, S2D1L, 4, true, 0, 1);
+ps!(c08_ps_s2d1_term3_s3, S2D1L, 4, false, 3, 3);
+// three pairs
+ps!(c08_ps_s3a_leaf_s2, S3A, 4, true, 0, 2);
+ps!(c08_ps_s3a_leaf_s1, S3A, 4, true, 0, 1);
+ps!(c08_ps_s3b_term2_s2, S3B, 4, false, 2, 2);
+ps!(c08_ps_s3c_leaf_s3, S3C, 4, true, 0, 3);
+ps!(c08_ps_s3c_term2_s2, S3C, 4, false, 2, 2);
